@@ -127,7 +127,7 @@ static void consume(const char* tag, F build, const std::vector<uint32_t>& expec
     const size_t n = expect.size();
     for (size_t p = 0; p < n; ++p) {
         const Poly& got = pool.v[r->data()[p].h];
-        Poly want = expect2 ? padd(pool.v[expect[p]], pool.v[(*expect2)[p]]) : pool.v[expect[p]];
+        Poly want = expect2 ? padd(pmul(pconst(2), pool.v[expect[p]]), pool.v[(*expect2)[p]]) : pool.v[expect[p]];
         VW_CHECK(got == want, "consumer %s result[%zu]=%s", tag, p, pstr(got).substr(0, 60).c_str());
     }
     VW_CHECK(oob == 0, "consumer %s out-of-window access", tag);
@@ -139,23 +139,37 @@ static void consume(const char* tag, F build, const std::vector<uint32_t>& expec
 
 template<typename P, typename... A> static auto slice(P& p, A... a) -> decltype(p(a...)) { return p(a...); }
 
-template<typename T, int CK, typename KindsT, typename PD, typename RD> struct DynRunner;
-template<typename T, int CK, int... K, size_t... D, size_t... R>
-struct DynRunner<T, CK, Kinds<K...>, Dims<D...>, Dims<R...>> {
+// parent kinds: an owning Tensor, or a TensorMap over storage in the arena (its views use the generic n-D class at every rank)
+template<int PK, typename T, size_t... D> struct Parent {
+    using type = Fastor::Tensor<T, D...>;
+    static type* make(int win) { return arena_tensor<type>(win); }
+};
+template<typename T, size_t... D> struct Parent<1, T, D...> {
+    using type = Fastor::TensorMap<T, D...>;
+    static type* make(int win) {
+        size_t n = 1; for (size_t d : {D...}) n *= d;
+        T* buf = sym_alloc<T>(win, n);
+        return new (arena_raw<type>()) type(buf);
+    }
+};
+
+template<typename T, int CK, typename KindsT, typename PD, typename RD, int PK = 0> struct DynRunner;
+template<typename T, int CK, int... K, size_t... D, size_t... R, int PK>
+struct DynRunner<T, CK, Kinds<K...>, Dims<D...>, Dims<R...>, PK> {
     static constexpr size_t RK = sizeof...(D);
-    using PT = Fastor::Tensor<T, D...>;
+    using PT = typename Parent<PK, T, D...>::type;
     using RT = Fastor::Tensor<T, R...>;
     using PRef = typename std::conditional<CK == 1, const PT, PT>::type;
 
     template<size_t... I>
     static void one(const std::array<Enc,RK>& e, Fastor::std_ext::index_sequence<I...>) {
         const std::array<int,RK> kinds = {K...}, pd = {(int)D...}, rd = {(int)R...};
-        const char* cls = RK == 1 ? "dyn1" : RK == 2 ? "dyn2" : "dynN";
-        std::printf("view cfg=%s sz=%d cls=%s ck=%s K=%s D=%s S=%s", CFGNAME, (int)sizeof(T), cls, CK ? "c" : "n", dims_str<RK>(kinds).c_str(), dims_str<RK>(pd).c_str(), seqs_str<RK>(e, kinds).c_str());
+        const char* cls = PK ? "dynN" : RK == 1 ? "dyn1" : RK == 2 ? "dyn2" : "dynN";
+        std::printf("view cfg=%s sz=%d cls=%s ck=%s par=%s K=%s D=%s S=%s", CFGNAME, (int)sizeof(T), cls, CK ? "c" : "n", PK ? "map" : "t", dims_str<RK>(kinds).c_str(), dims_str<RK>(pd).c_str(), seqs_str<RK>(e, kinds).c_str());
         std::fflush(stdout);
         vf::guarded([&] {
             arena.reset(); pool.reset();
-            PT* A = arena_tensor<PT>(1); PT* B = arena_tensor<PT>(2);
+            PT* A = Parent<PK, T, D...>::make(1); PT* B = Parent<PK, T, D...>::make(2);
             PRef& a = *A; PRef& b = *B;
             const long n = (long)RT::size();
             std::vector<uint32_t> expect(n), expect2(n);
@@ -166,12 +180,12 @@ struct DynRunner<T, CK, Kinds<K...>, Dims<D...>, Dims<R...>> {
             Fail fail; std::string out;
             {
                 auto v = slice(a, ArgMaker<K>::make(e[I])...);
-                probe<T, RK, RK == 2>(v, rd, expect, fail, out);
+                probe<T, RK, RK == 2 && PK == 0>(v, rd, expect, fail, out);
             }
             if (out.find(" ES=") != std::string::npos) {
                 consume<RT>("1", [&](void* slot) { return new (slot) RT(slice(a, ArgMaker<K>::make(e[I])...)); }, expect, nullptr, fail, out);
                 consume<RT>("2", [&](void* slot) { RT* r = new (slot) RT(); trace.clear(); *r += slice(a, ArgMaker<K>::make(e[I])...); return r; }, expect, nullptr, fail, out);
-                consume<RT>("3", [&](void* slot) { return new (slot) RT(slice(a, ArgMaker<K>::make(e[I])...) + slice(b, ArgMaker<K>::make(e[I])...)); }, expect, &expect2, fail, out);
+                consume<RT>("3", [&](void* slot) { return new (slot) RT(T(2) * slice(a, ArgMaker<K>::make(e[I])...) + slice(b, ArgMaker<K>::make(e[I])...)); }, expect, &expect2, fail, out);
             }
             std::printf(" |%s OOB=0 ORACLE=%s", out.c_str(), fail.what.empty() ? "ok" : "FAIL");
             if (!fail.what.empty()) std::printf(" bad=%s", fail.what.c_str());
@@ -208,7 +222,9 @@ struct FixRunner<T, CK, Dims<D...>, Fseqs...> {
     using PT = Fastor::Tensor<T, D...>;
     using RT = Fastor::Tensor<T, (size_t)Fastor::internal::fseq_range_detector<Fastor::to_positive_t<Fseqs, (int)D>>::value...>;
     using PRef = typename std::conditional<CK == 1, const PT, PT>::type;
-    static void run() {
+    // `int0`: when axis 0 was written as the fixed integer `fix<int0>`, its documented meaning (element int0,
+    // negative = counted from the end) is taken from the integer, not from the fseq the library turned it into
+    static void run(int int0 = INT32_MIN) {
         const std::array<int,RK> kinds{}, pd = {(int)D...};
         const std::array<int,RK> rd = {(int)Fastor::internal::fseq_range_detector<Fastor::to_positive_t<Fseqs, (int)D>>::value...};
         // documented meaning, computed here from the written (F,L,S) without the library's to_positive
@@ -218,9 +234,11 @@ struct FixRunner<T, CK, Dims<D...>, Fseqs...> {
             int f = F[k], l = L[k];
             if (f == -1 && l == 0) { f = pd[k] - 1; l = pd[k]; } else { if (f < 0) f += pd[k] + 1; if (l < 0) l += pd[k] + 1; }
             e[k] = {F[k], L[k], S[k], f, S[k], ceil_div(l - f, S[k])};
+            if (k == 0 && int0 != INT32_MIN) { e[k].bf = int0 < 0 ? int0 + pd[k] : int0; e[k].bs = 1; e[k].n = 1; }
         }
         const char* cls = RK == 1 ? "fix1" : RK == 2 ? "fix2" : "fixN";
         std::printf("view cfg=%s sz=%d cls=%s ck=%s D=%s S=%s", CFGNAME, (int)sizeof(T), cls, CK ? "c" : "n", dims_str<RK>(pd).c_str(), seqs_str<RK>(e, kinds).c_str());
+        if (int0 != INT32_MIN) std::printf(" I0=%d", int0);
         std::fflush(stdout);
         vf::guarded([&] {
             arena.reset(); pool.reset();
@@ -243,7 +261,7 @@ struct FixRunner<T, CK, Dims<D...>, Fseqs...> {
                 if (out.find(" ES=") != std::string::npos) {
                     consume<RT>("1", [&](void* slot) { return new (slot) RT(a(Fseqs()...)); }, expect, nullptr, fail, out);
                     consume<RT>("2", [&](void* slot) { RT* r = new (slot) RT(); trace.clear(); *r += a(Fseqs()...); return r; }, expect, nullptr, fail, out);
-                    consume<RT>("3", [&](void* slot) { return new (slot) RT(a(Fseqs()...) + b(Fseqs()...)); }, expect, &expect2, fail, out);
+                    consume<RT>("3", [&](void* slot) { return new (slot) RT(T(2) * a(Fseqs()...) + b(Fseqs()...)); }, expect, &expect2, fail, out);
                 }
             }
             std::printf(" |%s OOB=0 ORACLE=%s", out.c_str(), fail.what.empty() ? "ok" : "FAIL");
@@ -261,8 +279,16 @@ template<typename T, int CK, typename K, typename PD, typename RD>
 static void run_view(int smax, size_t cap, unsigned seed) { vw::DynRunner<T, CK, K, PD, RD>::run(smax, cap, seed); }
 template<typename T, int CK, typename K, typename PD, typename RD>
 static void run_view_one(const char* spec) { vw::DynRunner<T, CK, K, PD, RD>::run_one(spec); }
+// the same over a TensorMap parent (non-const only: TensorMap has no const slicing operator)
+template<typename T, typename K, typename PD, typename RD>
+static void run_mview(int smax, size_t cap, unsigned seed) { vw::DynRunner<T, 0, K, PD, RD, 1>::run(smax, cap, seed); }
+template<typename T, typename K, typename PD, typename RD>
+static void run_mview_one(const char* spec) { vw::DynRunner<T, 0, K, PD, RD, 1>::run_one(spec); }
 template<typename T, int CK, typename PD, typename... Fseqs>
 static void run_fix() { vw::FixRunner<T, CK, PD, Fseqs...>::run(); }
+// axis 0 written as the fixed integer fix<I0>, the other axes as given
+template<typename T, int CK, typename PD, int I0, typename... Fseqs>
+static void run_fixi() { vw::FixRunner<T, CK, PD, typename std::remove_cv<decltype(Fastor::fix<I0>)>::type, Fseqs...>::run(I0); }
 
 // ------------------------------------------------------------------------------------------------
 // scalar indexing A(i0,...,ik): every index tuple from one below -extent to one above extent-1
